@@ -74,6 +74,16 @@ pub fn run(ctx: &Ctx, rep: &mut Report) {
         let check_ok = |buf: &[u8], rep: &mut Report, what: &str, k: usize, must_ok: bool| {
             let mut arena = if lean { Arena::new_lean(buf.len(), base_off, Place::Tail) } else { Arena::new(buf.len(), base_off, if k % 2 == 0 { Place::Tail } else { Place::Island }, idx) };
             arena.fill_from(buf);
+            if !lean && what == "prefix" && k % 2 == 1 && k < m.len() {
+                // what lies behind a prefix must not matter: zeros (a fresh receive buffer), the rest of the very
+                // message (a slice of a longer recording), or arbitrary bytes (the default canaries)
+                match (k / 2) % 3 {
+                    0 => arena.fill_outside(0),
+                    1 => arena.write_after(&m[k..]),
+                    _ => {}
+                }
+                rep.count("prefix-with-chosen-surroundings");
+            }
             let mut got: Option<(Value, usize)> = None;
             let r = guarded(|| (vt.from_bytes)(arena.slice(), &mut |view| got = Some((view.read(), view.size()))));
             rep.evaluations += 1;
